@@ -663,7 +663,7 @@ fn service(inp: &Input) {
             let want = n.tip().1;
             let mut ok = false;
             let t_wait = std::time::Instant::now();
-            for _ in 0..6000 {
+            for _ in 0..36000 {
                 if let Ok(Some(t)) = h.get_indexer_tip() {
                     let hh: Byte32 = t.block_hash.clone().into();
                     if hh == want {
@@ -675,7 +675,7 @@ fn service(inp: &Input) {
             }
             wait_ms += t_wait.elapsed().as_millis() as u64;
             if !ok {
-                tool_errors.push(format!("hist {} step {}: the indexer did not reach the node's tip within 30 s", hist.id, si));
+                tool_errors.push(format!("hist {} step {}: the indexer did not reach the node's tip within 180 s", hist.id, si));
                 continue 'hist;
             }
             steps += 1;
@@ -708,7 +708,7 @@ fn service(inp: &Input) {
             drop(scratch);
             let _ = txc.send(());
         });
-        if rxc.recv_timeout(std::time::Duration::from_secs(20)).is_err() {
+        if rxc.recv_timeout(std::time::Duration::from_secs(60)).is_err() {
             slow_drops += 1;
         }
         drop_ms += t_drop.elapsed().as_millis() as u64;
